@@ -483,9 +483,9 @@ static void checkCase(verif::Run& run, const std::vector<mb::BodySpec>& specs, b
 // Translation) and T2' (variant and a companion both on Ground, in both construction orders).
 struct LevelG {
     std::vector<std::pair<int, int> > kd = mb::kindDirs();
-    int64_t size() const { return (int64_t)kd.size() * 4 * 3; }
+    int64_t size() const { return (int64_t)kd.size() * mb::NFRAMES_ALL * 3; }     // all 8 frame pairs (incl. the "one part only" pairs)
     std::vector<mb::BodySpec> specs(int64_t idx, int massSel) const {
-        int lay = idx % 3; idx /= 3; int fr = idx % 4; idx /= 4;
+        int lay = idx % 3; idx /= 3; int fr = idx % mb::NFRAMES_ALL; idx /= mb::NFRAMES_ALL;
         mb::BodySpec v; v.kind = kd[idx].first; v.dir = kd[idx].second; v.frames = fr; v.mass = massSel; v.parent = -1;
         if (lay == 0) return {v};
         mb::BodySpec c = mb::companion(lay == 1 ? 2 : 0); c.parent = -1;
@@ -497,7 +497,7 @@ int main(int argc, char** argv) {
     verif::Run run("C04", argc, argv);
     run.setDeadline(900, 3000);   // caps only (shared machine); measured cost is in notes/C04.md
     const bool th = run.thorough();
-    run.rule = "E3: models = level A (every KINDxDIRxFRAMES variant as base/middle/tip/fork-branch of a 3-body tree with companions {Pin,Ball,Free}^2) + section G (every variant alone on Ground and next to a Ground-attached companion, both orders); thorough adds level B (all ordered parent->child pairs) and level C (all triples over 8 code families); x COORD{quaternion,Euler} x STATE(4: zero, generic, large-angle, zero-velocity) x value set = seed%3 (thorough: all 3); mass kind = model index % 3. Per (model,state): system Jacobian operators, and EVERY ordered task list of <= 2 (body,station) tasks with body in {Ground, all bodies}, station in {0,(.1,.2,-.3)} (1 + 2nb + (2nb)^2 lists; repeats allowed). evaluations = (model,state) cases + task lists; distinct = distinct (model,coord,state,valueset[,task list]); non-trivial = nu>=1 and (for a task list) at least one non-Ground task";
+    run.rule = "E3: KIND = 19 built-in mobilizers, 5 Custom/FunctionBased mirrors with a constant hinge matrix, FunctionBased with nonlinear coordinate functions and 1..6 mobilities (FBN1..6), Custom helix slider with H(q) from X_FM and HDot from V_FM -- 58 KINDxDIR variants (engine/models.h); models = level A (every KINDxDIRxFRAMES variant as base/middle/tip/fork-branch of a 3-body tree with companions {Pin,Ball,Free}^2) + section G (every variant x all 8 frame pairs alone on Ground and next to a Ground-attached companion, both orders); thorough adds level B (all ordered parent->child pairs) and level C (all triples over 8 code families); x COORD{quaternion,Euler} x STATE(4: zero, generic, large-angle, zero-velocity) x value set = seed%3 (thorough: all 3); mass kind = model index % 3. Per (model,state): system Jacobian operators, and EVERY ordered task list of <= 2 (body,station) tasks with body in {Ground, all bodies}, station in {0,(.1,.2,-.3)} (1 + 2nb + (2nb)^2 lists; repeats allowed). evaluations = (model,state) cases + task lists; distinct = distinct (model,coord,state,valueset[,task list]); non-trivial = nu>=1 and (for a task list) at least one non-Ground task";
     run.assumptions = {"continuous values only from the fixed tables in engine/models.h, kept away from coordinate singularities",
         "trees of at most 3 mobilized bodies; task lists of at most 2 tasks; contiguous Vector/Matrix arguments only",
         "velocity/acceleration read-outs of the state (getBodyVelocity, findStationVelocityInGround, getBodyAcceleration) are the reference the property names; they are cross-checked with the harness's own rigid-body shift, and position/velocity kinematics themselves are checked by C03/C05",
